@@ -30,11 +30,11 @@ def gen_wrappers(t, base, depth, nn_pct=35, list_pct=35):
     return ty
 
 
-def gen_schema(tape, knobs=None):
+def gen_schema(tape, knobs=None, stream="schema"):
     k = dict(DEFAULT_KNOBS)
     if knobs:
         k.update(knobs)
-    t = tape.sub("schema")
+    t = tape.sub(stream)
     s = Schema()
 
     # leaf types
